@@ -81,14 +81,17 @@ def make_frame(L, seed):
                              z=rng.uniform(0.1, 1.0, L), pid=np.arange(L) % 2))
 
 
-def run_source(yaw, source, L, CS, groups, passes, workdir, mode_kw, W, seed):
+def run_source(yaw, source, L, CS, groups, passes, workdir, mode_kw, W, seed, prior=False):
     """Create a catalog from the given kind of source with recording wrappers;
-    returns (events, outcome)."""
+    returns (events, outcome).  prior: a catalog already exists at the cache path and is
+    replaced (overwrite=True) by the recorded creation."""
     log = recsrc.Log()
     df = make_frame(L, seed)
     cols = dict(ra_name="ra", dec_name="dec", weight_name="w", redshift_name="z")
     kw = dict(overwrite=True, chunksize=CS, max_workers=W, **mode_kw)
     cache = str(workdir / "cache")
+    if prior:
+        yaw.Catalog.from_dataframe(cache, make_frame(3, seed + 1), **cols, patch_name="pid", overwrite=True, max_workers=1)
 
     def call():
         if source == "frame":
@@ -109,6 +112,16 @@ def run_source(yaw, source, L, CS, groups, passes, workdir, mode_kw, W, seed):
             Table.from_pandas(df).write(path, overwrite=True)
             with recsrc.record_fits(log):
                 return yaw.Catalog.from_file(cache, path, **cols, **kw)
+        if source == "fits_hdu2":
+            # the table is NOT in extension 1 (e.g. LDAC catalogs): read with the hdu option
+            from astropy.io import fits as afits
+            from astropy.table import Table
+
+            path = workdir / "in.fits"
+            dummy = Table(dict(ra=[0.0], dec=[0.0], w=[1.0], z=[0.5], pid=[0]))
+            afits.HDUList([afits.PrimaryHDU(), afits.BinTableHDU(dummy), afits.BinTableHDU(Table.from_pandas(df))]).writeto(path, overwrite=True)
+            with recsrc.record_fits(log):
+                return yaw.Catalog.from_file(cache, path, **cols, **kw, hdu=2)
         if source == "parquet":
             import pyarrow as pa
             from pyarrow import parquet
@@ -189,7 +202,7 @@ def run(ctx) -> None:
         groups = _key(p)[3]
         exp = [tuple(r) for r in reqs]
         if kind == "slice":
-            for source in ("frame", "hdf", "fits"):
+            for source in ("frame", "hdf", "fits", "fits_hdu2"):
                 todo.append((source, L, CS, (), passes, exp))
         elif kind == "random":
             if passes == 1:
@@ -200,7 +213,7 @@ def run(ctx) -> None:
     if quick:
         # stratify: all frame scenarios, a sample of the file formats
         keep = [t for t in todo if t[0] in ("frame", "random")]
-        for src, n in (("hdf", 60), ("fits", 40), ("parquet", 150)):
+        for src, n in (("hdf", 60), ("fits", 40), ("fits_hdu2", 30), ("parquet", 150)):
             keep += [t for t in todo if t[0] == src][:n]
         todo = keep
     with scratch("c18_") as root:
@@ -218,11 +231,12 @@ def run(ctx) -> None:
             W = 1
             if (source == "frame" and n % 2 == 0) or n % 5 == 0:
                 W = rng.choice([2, 3])
-            events, outcome = run_source(yaw, source, L, CS, groups, passes, work, mode_kw, W, ctx.seed + n)
+            prior = n % 4 == 1      # every 4th creation replaces an existing catalog
+            events, outcome = run_source(yaw, source, L, CS, groups, passes, work, mode_kw, W, ctx.seed + n, prior=prior)
             nontrivial = L > CS or len(groups) > 1
-            ctx.evaluated(1, (source, L, CS, groups, passes, W) if nontrivial else None)
+            ctx.evaluated(1, (source, L, CS, groups, passes, W, prior) if nontrivial else None)
             ctx.validated(1)
-            tag = f"{source}|{'create' if passes == 2 else ('divide' if 'patch_name' in mode_kw else 'apply')}"
+            tag = f"{source}|{'create' if passes == 2 else ('divide' if 'patch_name' in mode_kw else 'apply')}{',replacing_existing_cache' if prior else ''}"
             if outcome[0] != "ok":
                 ctx.violation(f"C18|{tag}|workers={'1' if W == 1 else 'n'}|creation_{outcome[0]}_{type(outcome[1]).__name__ if outcome[0] == 'raised' else ''}",
                               dict(source=source, L=L, chunksize=CS, groups=groups, passes=passes, W=W, error=repr(outcome[1])))
@@ -231,14 +245,14 @@ def run(ctx) -> None:
                 ctx.violation(f"C18|{tag}|any|stored_records_{'fewer' if outcome[1] < L else 'more'}_than_input",
                               dict(source=source, L=L, chunksize=CS, groups=groups, passes=passes, W=W, stored=outcome[1]))
                 continue
-            if source in ("hdf", "fits"):
+            if source in ("hdf", "fits", "fits_hdu2"):
                 events = column_passes(events, "/ra" if source == "hdf" else "ra")
             got, whole = split_passes(events)
             if source == "parquet":
                 key = (L, CS, "parquet", tuple(groups), passes)
                 exp_dev = [tuple(r) for r in dev_expect[key][0]] if key in dev_expect else None
             failed = predicates(got, whole, L, CS, passes)
-            detail = dict(source=source, L=L, chunksize=CS, row_groups=list(groups), passes=passes, workers=W, mode=tag,
+            detail = dict(source=source, L=L, chunksize=CS, row_groups=list(groups), passes=passes, workers=W, mode=tag, replacing_existing_cache=prior,
                           requests=got, unsliced=whole[:3], expected_last_pass=exp)
             if failed:
                 cls = "row_group_larger_than_chunksize" if (source == "parquet" and any(g > CS for g in groups)) else "any"
